@@ -460,6 +460,20 @@ def install(eng):
             return one(st, PY_STRIP(to_str_term(s)))
         raise Unsupported('strip with arguments')
 
+    PY_LOWER = z3.Function('py_lower', z3.StringSort(), z3.StringSort())
+
+    @method('lower')
+    def _lower(eng, st, args, kw, node):
+        s = args[0]
+        if isinstance(s, str):
+            return one(st, s.lower())
+        if is_strlike(s):
+            eng.trusted_used.add('str.lower(): abstract function py_lower')
+            return one(st, PY_LOWER(to_str_term(s)))
+        raise Unsupported('lower on %r' % (s,))
+
+    B['py_lower'] = Fn(lambda eng, st, args, kw, node: [(st, args[0].lower() if isinstance(args[0], str) else PY_LOWER(to_str_term(args[0])))], 'py_lower')
+
     @reg('str_to_int')
     def _str_to_int(eng, st, args, kw, node):
         s = args[0]
@@ -474,6 +488,29 @@ def install(eng):
         if st.dead:
             return []
         return one(st, PY_INT(t))
+
+    PY_FLOAT = z3.Function('py_float', z3.StringSort(), z3.RealSort())
+    PY_FLOAT_OK = z3.Function('py_float_ok', z3.StringSort(), z3.BoolSort())
+
+    @reg('str_to_float')
+    def _str_to_float(eng, st, args, kw, node):
+        s = args[0]
+        if isinstance(s, str):
+            try:
+                return one(st, fractions.Fraction(float(s)))
+            except (ValueError, OverflowError):
+                eng.throw(st, 'ValueError', node)
+                return []
+        t = to_str_term(s)
+        eng.trusted_used.add("float(str): abstract functions py_float_ok / py_float (which texts parse, and to what, is CPython's; "
+                             "nan / inf texts are treated as numbers); the real parsing is covered by the bounded stand-in")
+        st = eng.fork_exc(st, PY_FLOAT_OK(t), 'ValueError', node)
+        if st.dead:
+            return []
+        return one(st, PY_FLOAT(t))
+
+    B['py_float'] = Fn(lambda eng, st, args, kw, node: [(st, PY_FLOAT(to_str_term(args[0])))], 'py_float')
+    B['py_float_ok'] = Fn(lambda eng, st, args, kw, node: [(st, PY_FLOAT_OK(to_str_term(args[0])))], 'py_float_ok')
 
     for _nm, _f in (('split_len', lambda a: SPLIT_LEN(to_str_term(a[0]))), ('split_part', lambda a: SPLIT_PART(to_str_term(a[0]), to_int(a[1]))),
                     ('py_strip', lambda a: PY_STRIP(to_str_term(a[0]))), ('py_int', lambda a: PY_INT(to_str_term(a[0]))),
@@ -757,6 +794,21 @@ def install(eng):
     @reg('cls:BinaryIO.tell')
     def _f_tell(eng, st, args, kw, node):
         return one(st, _fobj(st, args[0])['pos'])
+
+    @reg('time.perf_counter')
+    def _perf_counter(eng, st, args, kw, node):
+        return one(st, z3.Real(uid('perf_counter')))
+
+    @reg('os.path.getsize')
+    def _getsize(eng, st, args, kw, node):
+        eff = getattr(eng, 'effect', None)
+        if not (eff is not None and 'os.path.getsize' in eff.no_raise_calls):
+            eng.throw(st.copy(), 'OSError', node)
+        else:
+            eng.assumptions_used.add('%s: call of os.path.getsize is assumed to raise nothing' % eff.func)
+        n = z3.Int(uid('getsize'))
+        st.assume(n >= 0)
+        return one(st, n)
 
     @reg('copy.copy')
     def _copy(eng, st, args, kw, node):
